@@ -39,33 +39,66 @@ type c15querier struct {
 	stateErr   bool
 	// memberOf, when set, is the only sender ID the membership table knows (pseudo-ID rooms key members by room key)
 	memberOf spec.SenderID
+	// fail names the one method that answers with an error (a database that is down at that moment); failed counts
+	// how often it did
+	fail   string
+	failed int
+}
+
+func (q *c15querier) fault(method string) error {
+	if q.fail == method {
+		q.failed++
+		return errors.New("scripted fault: " + method)
+	}
+	return nil
 }
 
 func (q *c15querier) CurrentStateEvent(ctx context.Context, roomID spec.RoomID, eventType string, stateKey string) (gmsl.PDU, error) {
+	if err := q.fault("CurrentStateEvent"); err != nil {
+		return nil, err
+	}
 	if p, ok := q.state[stKey{eventType, stateKey}]; ok {
 		return p, nil
 	}
 	return nil, nil
 }
 func (q *c15querier) InvitePending(ctx context.Context, roomID spec.RoomID, senderID spec.SenderID) (bool, error) {
+	if err := q.fault("InvitePending"); err != nil {
+		return false, err
+	}
 	return q.pending, nil
 }
 func (q *c15querier) RestrictedRoomJoinInfo(ctx context.Context, roomID spec.RoomID, senderID spec.SenderID, localServerName spec.ServerName) (*gmsl.RestrictedRoomJoinInfo, error) {
+	if err := q.fault("RestrictedRoomJoinInfo"); err != nil {
+		return nil, err
+	}
 	return q.info[roomID.String()], nil
 }
 func (q *c15querier) CurrentMembership(ctx context.Context, roomID spec.RoomID, senderID spec.SenderID) (string, error) {
+	if err := q.fault("CurrentMembership"); err != nil {
+		return "", err
+	}
 	if q.memberOf != "" && senderID != q.memberOf {
 		return "", nil
 	}
 	return q.membership, nil
 }
 func (q *c15querier) IsKnownRoom(ctx context.Context, roomID spec.RoomID) (bool, error) {
+	if err := q.fault("IsKnownRoom"); err != nil {
+		return false, err
+	}
 	return q.known, nil
 }
 func (q *c15querier) GetAuthEvents(ctx context.Context, event gmsl.PDU) (gmsl.AuthEventProvider, error) {
+	if err := q.fault("GetAuthEvents"); err != nil {
+		return nil, err
+	}
 	return gmsl.NewAuthEvents(nil)
 }
 func (q *c15querier) GetState(ctx context.Context, roomID spec.RoomID, stateWanted []gmsl.StateKeyTuple) ([]gmsl.PDU, error) {
+	if err := q.fault("GetState"); err != nil {
+		return nil, err
+	}
 	if q.stateErr {
 		return nil, errors.New("scripted")
 	}
@@ -188,6 +221,7 @@ func runC15(c *mon.Ctx) {
 	c.Floor("handler_success", 50)
 	c.Floor("handler_refusal", 200)
 	c.Floor("perform_join_calls", 30)
+	c.Floor("handler_callback_faults_hit", 100)
 }
 
 // templateBuilder builds the event a handler asks for on the branch's state.
@@ -256,6 +290,29 @@ func c15MakeJoinLeave(c *mon.Ctx, r *gen.Rand, sc *simScenario, b *simBranch) {
 				resp, err := gmsl.HandleMakeJoin(gmsl.HandleMakeJoinInput{Context: context.Background(), UserID: uid, SenderID: spec.SenderID(user), RoomID: s.create.RoomID(), RoomVersion: s.ver,
 					RemoteVersions: remoteVersions, RequestOrigin: origin, LocalServerName: spec.ServerName(c15local), LocalServerInRoom: inRoom, RoomQuerier: q, UserIDQuerier: userIDForSender, BuildEventTemplate: build})
 				c15verdict(c, "make_join", name, want, err == nil, vecName(names, vec), s.ver)
+				if want && err == nil {
+					// the same request while one of the things the handler asks is failing: no template on an unanswered question
+					for _, f := range []string{"CurrentStateEvent", "InvitePending", "RestrictedRoomJoinInfo", "BuildEventTemplate", "UserIDQuerier"} {
+						fq := &c15querier{state: b.state, fail: f}
+						failed := 0
+						fbuild, fuid := build, spec.UserIDForSender(userIDForSender)
+						if f == "BuildEventTemplate" {
+							fbuild = func(pe *gmsl.ProtoEvent) (gmsl.PDU, []gmsl.PDU, error) { failed++; return nil, nil, errors.New("scripted fault") }
+						}
+						if f == "UserIDQuerier" {
+							fuid = func(roomID spec.RoomID, senderID spec.SenderID) (*spec.UserID, error) { failed++; return nil, errors.New("scripted fault") }
+						}
+						_, ferr := gmsl.HandleMakeJoin(gmsl.HandleMakeJoinInput{Context: context.Background(), UserID: uid, SenderID: spec.SenderID(user), RoomID: s.create.RoomID(), RoomVersion: s.ver,
+							RemoteVersions: remoteVersions, RequestOrigin: origin, LocalServerName: spec.ServerName(c15local), LocalServerInRoom: inRoom, RoomQuerier: fq, UserIDQuerier: fuid, BuildEventTemplate: fbuild})
+						c.Count("handler_calls_with_a_failing_callback")
+						if failed+fq.failed > 0 {
+							c.Count("handler_callback_faults_hit")
+							if ferr == nil {
+								c.Failf("make_join:succeeds-although-a-callback-failed:"+f, "HandleMakeJoin returns a template although %s answered with an error", f)
+							}
+						}
+					}
+				}
 				if err == nil {
 					pe := resp.JoinTemplateEvent
 					if pe.Type != "m.room.member" || pe.StateKey == nil || *pe.StateKey != user || pe.SenderID != user || resp.RoomVersion != s.ver || !strings.Contains(string(pe.Content), `"join"`) {
@@ -571,6 +628,30 @@ func c15SendJoin(c *mon.Ctx, r *gen.Rand, sc *simScenario, b *simBranch) {
 				LocalServerName: spec.ServerName(c15local), KeyID: gmsl.KeyID(local.KeyID), PrivateKey: local.Priv, Verifier: ring, MembershipQuerier: q, UserIDQuerier: userIDForSender,
 				StoreSenderIDFromPublicID: func(ctx context.Context, senderID spec.SenderID, userID string, id spec.RoomID) error { return nil }})
 			c15verdict(c, "send_join", name, allTrue(vec), err == nil, vecName(names, vec), s.ver)
+			if allTrue(vec) && err == nil {
+				for _, f := range []string{"CurrentMembership", "UserIDQuerier", "Verifier"} {
+					fq := &c15querier{membership: existing, fail: f}
+					failed := 0
+					fuid := spec.UserIDForSender(userIDForSender)
+					var fver gmsl.JSONVerifier = ring
+					if f == "UserIDQuerier" {
+						fuid = func(roomID spec.RoomID, senderID spec.SenderID) (*spec.UserID, error) { failed++; return nil, errors.New("scripted fault") }
+					}
+					if f == "Verifier" {
+						fver = failingVerifier{&failed}
+					}
+					_, ferr := gmsl.HandleSendJoin(gmsl.HandleSendJoinInput{Context: context.Background(), RoomID: roomID, EventID: eventID, JoinEvent: evJSON, RoomVersion: s.ver, RequestOrigin: origin,
+						LocalServerName: spec.ServerName(c15local), KeyID: gmsl.KeyID(local.KeyID), PrivateKey: local.Priv, Verifier: fver, MembershipQuerier: fq, UserIDQuerier: fuid,
+						StoreSenderIDFromPublicID: func(ctx context.Context, senderID spec.SenderID, userID string, id spec.RoomID) error { return nil }})
+					c.Count("handler_calls_with_a_failing_callback")
+					if failed+fq.failed > 0 {
+						c.Count("handler_callback_faults_hit")
+						if ferr == nil {
+							c.Failf("send_join:succeeds-although-a-callback-failed:"+f, "HandleSendJoin accepts and signs the join although %s answered with an error", f)
+						}
+					}
+				}
+			}
 			if err != nil {
 				return
 			}
@@ -679,6 +760,33 @@ func c15Invite(c *mon.Ctx, r *gen.Rand, sc *simScenario, b *simBranch) {
 			out, err := gmsl.HandleInvite(context.Background(), gmsl.HandleInviteInput{RoomID: roomID, RoomVersion: s.ver, InvitedUser: spec.NewUserIDOrPanic(invitee, true), InvitedSenderID: spec.SenderID(invitee),
 				InviteEvent: ev, StrippedState: stripped, KeyID: gmsl.KeyID(inviteeID.KeyID), PrivateKey: inviteeID.Priv, Verifier: ring, RoomQuerier: q, MembershipQuerier: q, StateQuerier: q, UserIDQuerier: userIDForSender})
 			c15verdict(c, "invite", name, allTrue(vec), err == nil, vecName(names, vec), s.ver)
+			if allTrue(vec) && err == nil {
+				for _, f := range []string{"IsKnownRoom", "CurrentMembership", "GetState", "UserIDQuerier", "Verifier"} {
+					fq := &c15querier{state: b.state, membership: membership, known: known, fail: f}
+					failed := 0
+					fuid := spec.UserIDForSender(userIDForSender)
+					var fver gmsl.JSONVerifier = ring
+					if f == "UserIDQuerier" {
+						fuid = func(roomID spec.RoomID, senderID spec.SenderID) (*spec.UserID, error) { failed++; return nil, errors.New("scripted fault") }
+					}
+					if f == "Verifier" {
+						fver = failingVerifier{&failed}
+					}
+					fev, perr := s.impl.NewEventFromTrustedJSON(before, false)
+					if perr != nil {
+						continue
+					}
+					_, ferr := gmsl.HandleInvite(context.Background(), gmsl.HandleInviteInput{RoomID: roomID, RoomVersion: s.ver, InvitedUser: spec.NewUserIDOrPanic(invitee, true), InvitedSenderID: spec.SenderID(invitee),
+						InviteEvent: fev, StrippedState: stripped, KeyID: gmsl.KeyID(inviteeID.KeyID), PrivateKey: inviteeID.Priv, Verifier: fver, RoomQuerier: fq, MembershipQuerier: fq, StateQuerier: fq, UserIDQuerier: fuid})
+					c.Count("handler_calls_with_a_failing_callback")
+					if failed+fq.failed > 0 {
+						c.Count("handler_callback_faults_hit")
+						if ferr == nil {
+							c.Failf("invite:succeeds-although-a-callback-failed:"+f, "HandleInvite accepts and signs the invite although %s answered with an error", f)
+						}
+					}
+				}
+			}
 			if err != nil {
 				return
 			}
@@ -1109,3 +1217,11 @@ func c15PerformJoinOn(c *mon.Ctx, r *gen.Rand, sc *simScenario, rb *simBranch, v
 }
 
 var _ = json.Marshal
+
+// failingVerifier is a key ring that cannot answer (its database is down).
+type failingVerifier struct{ n *int }
+
+func (f failingVerifier) VerifyJSONs(ctx context.Context, requests []gmsl.VerifyJSONRequest) ([]gmsl.VerifyJSONResult, error) {
+	*f.n++
+	return nil, errors.New("scripted fault")
+}
